@@ -194,7 +194,8 @@ func (s *handler) handleReader(ctx context.Context, r io.Reader, w io.Writer, rp
 	if bufferedRequest.Bytes()[0] == '[' && bufferedRequest.Bytes()[reqSize-1] == ']' {
 		var reqs []request
 
-		if err := json.NewDecoder(bufferedRequest).Decode(&reqs); err != nil {
+		// Unmarshal (unlike Decoder.Decode) rejects trailing data after the value
+		if err := json.Unmarshal(bufferedRequest.Bytes(), &reqs); err != nil {
 			rpcError(wf, nil, rpcParseError, xerrors.New("Parse error"))
 			return
 		}
@@ -232,7 +233,8 @@ func (s *handler) handleReader(ctx context.Context, r io.Reader, w io.Writer, rp
 		_, _ = w.Write([]byte("]")) // todo consider handling this error
 	} else {
 		var req request
-		if err := json.NewDecoder(bufferedRequest).Decode(&req); err != nil {
+		// Unmarshal (unlike Decoder.Decode) rejects trailing data after the value
+		if err := json.Unmarshal(bufferedRequest.Bytes(), &req); err != nil {
 			rpcError(wf, &req, rpcParseError, xerrors.New("Parse error"))
 			return
 		}
